@@ -23,6 +23,12 @@ real object with a list model (by default after *every* step):
     ops: set K v | del K | get K | in K | getd K | pop K | popd K | popitem | setdefault K v |
          update HOW [[K, v]..] | first K | last K | before K R | after K R |
          sort [MODE [ranks]] | copy [SIDE] | reparse FORM [SIDE] | clear | obs
+    ``sort`` MODE names a key function of the table SORT_KEYS (default: no key argument).  The same
+    function is applied by the library to the objects it holds and by the model to the plain
+    spellings (``list.sort(key=f)``); besides keys that fold or ignore the case (lower-reversed,
+    len, a rank table) there are keys that *return, embed or compare the object they were given*
+    (identity, (rank, name), (len, name), [name], min/max with a constant, ``name < "a"``, str(name),
+    swapcase, formatting): for those the reference order is Python's order of str - case-sensitive.
     ``copy`` and ``reparse`` (dump, then parse the text in form FORM) make a second mapping.  SIDE
     says on which of the two the history goes on: "copy" (default) - on the new object, the old one
     is set aside; "orig" - on the old object, the new one is set aside.  An object set aside is a
@@ -72,7 +78,15 @@ RULE = ("cases are operation histories ([op, args..] lists; key/node operands ar
         "the old one (the new one is set aside); the last 3 objects set aside stay alive as bystanders and "
         "are compared, at every observation the policy allows and at the end, with the model as it was when "
         "they were set aside; both sides are in the enumerated alphabets (all three policies) and in the "
-        "generated mixes, with motifs 'fork, then re-assign / delete / move / sort on the live side'. Non-trivial (deb822) = the history contains at least one "
+        "generated mixes, with motifs 'fork, then re-assign / delete / move / sort on the live side'. Sorting: "
+        "sort_fields() and sort_fields(key=f) for 17 key functions f, the same f being applied to the model's "
+        "plain spellings - 13 of them return, embed (tuple/list with a rank, the length or the initial) or "
+        "compare (<, >=, min/max against a constant) the object they are given or convert it without folding "
+        "the case; all are in the generated mixes, and an enumerated source runs each of them (rank tables: 3) "
+        "on every order of 4 names from 4 mixed-case pools (str order and case-folded order differ) from the "
+        "14 start states, two sorts in a row (stability) and a sort between a structural operation before and "
+        "after it; label sort:name-key/case-decides = the reference order differs from what the key would give "
+        "on case-folded names. Non-trivial (deb822) = the history contains at least one "
         "successful re-order, one successful deletion and one access to a live key through a "
         "spelling other than the stored one; (oset/llist) = at least one successful removal and one "
         "successful re-order/insertion that is not a plain append; distinct = distinct canonical JSON")
@@ -81,6 +95,12 @@ ASSUMPTIONS = [
     "keys are ASCII field names (Policy 5.1), values printable single-line text without leading or "
     "trailing blanks, so that dump -> parse is the identity on values (value fidelity is C02's business)",
     "which pair popitem() removes is not specified: any pair of the model is accepted",
+    "sort_fields(key=f) is judged against list.sort(key=f) over the model's plain str spellings ('same "
+    "semantics as for sorted'; the names keep their case and folding it is the caller's business, says the "
+    "docstring): a key function that returns its argument, or a container holding it, orders the names as str "
+    "orders them (case-sensitively, stable); key functions are total and deterministic and only use the str "
+    "interface of their argument; live names differ after case folding, so equality of two arguments never "
+    "decides a comparison",
     "re-ordering an absent key relative to itself may raise KeyError or ValueError (the statement "
     "promises both)",
     "observation policies: a history may be run with the harness reading everything after every step "
@@ -103,14 +123,20 @@ EXHAUSTIVE = {
              "OrderedSet (29 ops, case-insensitive and plain items), and of 1..4 steps for LinkedList (13 ops); "
              "sparse observation: every history of 1..2 steps over a 20-op delete/lookup/copy alphabet from each of "
              "the 14 start states under the policies keys and blind, and of 3 steps from 5 start states "
-             "(empty, dict, parsed text, parsed by iter_paragraphs, Deb822Dict from pairs)",
+             "(empty, dict, parsed text, parsed by iter_paragraphs, Deb822Dict from pairs); sort keys: each of "
+             "the 21 sort operations (15 key functions + 2 ranked ones x 3 rank tables) on all 24 orders of 4 names "
+             "x 4 mixed-case pools, each order from every 4th of the 14 start states; for 2 orders per pool every "
+             "pair of sorts and every (10 ops before) x sort x (7 ops after) x identity-sort history",
     "thorough": "every history of 1..4 steps over the index-operand op alphabets, each from a 3-element "
                 "start: deb822 (35 ops, copy and dump/parse continued on either object; paragraph parsed from lines; "
                 "from a dict: 1..3 steps), "
                 "OrderedSet (29 ops, case-insensitive and plain items), and of 1..5 steps for LinkedList (13 ops); "
                 "sparse observation: every history of 1..3 steps over a 20-op delete/lookup/copy alphabet from each "
                 "of the 14 start states under the policies keys and blind, and of 4 steps from 5 start states "
-                "(empty, dict, parsed text, parsed by iter_paragraphs, Deb822Dict from pairs)",
+                "(empty, dict, parsed text, parsed by iter_paragraphs, Deb822Dict from pairs); sort keys: each of "
+                "the 21 sort operations (15 key functions + 2 ranked ones x 3 rank tables) on all 24 orders of 4 names "
+                "x 4 mixed-case pools from all 14 start states; for every order every pair of sorts and every "
+                "(10 ops before) x sort x (7 ops after) x identity-sort history",
 }
 BUDGET = {"quick": 400, "thorough": 2400}
 
@@ -184,13 +210,48 @@ def rank_key(ranks):
     return f
 
 
+def _same(f):
+    return lambda ranks: (f, f)
+
+
+def _rank_name(ranks):
+    rk = rank_key(ranks)
+    return ((lambda x: (rk(x), x)),) * 2
+
+
+# mode -> (key function handed to sort_fields, key function of the reference).  The reference is
+# ``list.sort(key=f)`` over the plain spellings (sort_fields: "same semantics as for sorted"; the
+# names keep their case and the caller "is recommended to use lower() to normalise" - a key
+# function that does not, orders the spellings as Python orders str: case-sensitively).  Both
+# columns are the *same* function wherever a key function is passed at all: what is under test is
+# that the object the library hands to f behaves, in f and in the comparison of f's results, as the
+# spelling itself would.
 SORT_KEYS = {
     "default": lambda ranks: (None, lambda s: s.lower()),
     "ranks": lambda ranks: (rank_key(ranks), rank_key(ranks)),
-    "revlower": lambda ranks: ((lambda x: x.lower()[::-1]),) * 2,
-    "len": lambda ranks: (len, len),
-    "str": lambda ranks: (str, str),       # the case-preserved name, compared case-sensitively
+    "revlower": _same(lambda x: x.lower()[::-1]),
+    "len": _same(len),
+    "str": _same(str),                      # the case-preserved name, compared case-sensitively
+    # key functions whose result *is* or *contains* the very object they were given
+    "ident": _same(lambda x: x),
+    "rank-name": _rank_name,                # a priority table with the name as tie-breaker
+    "len-name": _same(lambda x: (len(x), x)),
+    "initial-name": _same(lambda x: (x[:1].lower(), x)),
+    "in-list": _same(lambda x: [x]),
+    "name-len": _same(lambda x: (x, len(x))),
+    "clamp": _same(lambda x: min(max(x, "C"), "e")),      # the argument or a constant, via its < / >
+    # key functions that compare their argument with a constant themselves
+    "pivot": _same(lambda x: x < "a"),
+    "pivot-right": _same(lambda x: ("M" < x, "c" >= x)),
+    # other str methods / conversions of the argument, none of which folds the case
+    "swapcase": _same(lambda x: x.swapcase()),
+    "format": _same(lambda x: "%s|%d" % (x, len(x))),
+    "concat": _same(lambda x: x + "."),
 }
+RANKED_SORTS = ("ranks", "rank-name")
+NAME_SORTS = ("ident", "rank-name", "len-name", "initial-name", "in-list", "name-len", "clamp", "pivot",
+              "pivot-right", "str", "swapcase", "format", "concat")
+PLAIN_SORTS = sorted(m for m in SORT_KEYS if m not in RANKED_SORTS)
 
 
 # ------------------------------------------------------------------------------------------
@@ -774,7 +835,7 @@ class Deb822Session(object):
     def op_sort(self, mode="default", ranks=None):
         if mode not in SORT_KEYS:
             return False
-        if mode == "ranks":
+        if mode in RANKED_SORTS:
             if not (isinstance(ranks, list) and ranks and all(is_index(x) for x in ranks)):
                 return False
         libkey, modelkey = SORT_KEYS[mode](ranks)
@@ -787,8 +848,13 @@ class Deb822Session(object):
         self.m.sort(modelkey)
         self.labels.add("sort:" + mode)
         self.labels.add("sort:order-unchanged" if before == self.m.keys() else "sort:order-changed")
-        if len(set(ks)) != len(ks):
+        if any(a == b for a, b in itertools.combinations(ks, 2)):
             self.labels.add("sort:ties")
+        if mode in NAME_SORTS and before:
+            # coverage only: would this key have given another order had the names been compared
+            # without regard to case?  (only then does the history tell the two orders apart)
+            folded = sorted(before, key=lambda s: modelkey(s.lower()))
+            self.labels.add("sort:name-key/case-decides" if folded != self.m.keys() else "sort:name-key/case-irrelevant")
         if self.prev[0] == "del":
             self.labels.add("seq:del>sort")
         if self.prev[0] == "reorder":
@@ -1285,6 +1351,56 @@ def enum_sparse(maxlen):
     return gen
 
 
+# Sorting with key functions.  What matters is which key function it is and how the live names
+# compare with and without regard to case, so: every key function of SORT_KEYS on every order of
+# four names out of pools that mix the cases (capitals sort before small letters in str order, so
+# 'Xb' < 'ab' although 'ab' comes first once the case is folded), from every start state; two sorts
+# in a row (the second has to be stable with respect to the first); and a sort between a structural
+# operation before and one after it.
+SORT_POOLS = [["b", "A", "X-y", "c"], ["zz", "Ab", "e1", "G-h"], ["Source", "binary", "Version", "architecture"],
+              ["x-Y", "B", "dD", "Ff"]]
+SORT_RANKS = [[2, 0, 1], [0, 0, 1, 0], [3]]
+SORT_PRE = [["del", 0], ["del", -1], ["set", [1, "s"], "8"], ["set", "J2", "9"], ["first", -1], ["after", 0, [1, "u"]],
+            ["copy"], ["copy", "orig"], ["reparse", 1], ["reparse", 4, "orig"]]
+SORT_POST = [["set", "i", "7"], ["del", [0, "s"]], ["last", 0], ["before", -1, 0], ["sort"], ["copy"], ["pop", 1]]
+
+
+def _sort_ops():
+    ops = [["sort", m] for m in PLAIN_SORTS]
+    ops += [["sort", m, r] for m in RANKED_SORTS for r in SORT_RANKS]
+    return ops
+
+
+def enum_sortkeys(full):
+    def gen():
+        sorts = _sort_ops()
+        for pi, pool in enumerate(SORT_POOLS):
+            perms = list(itertools.permutations(pool))
+            for ni, names in enumerate(perms):
+                items = [[k, str(i + 1)] for i, k in enumerate(names)]
+                for hi, (cls, how) in enumerate(INIT_HOWS):
+                    # quick: each order from 4 of the 14 start states in turn, thorough: from all
+                    if not full and (hi + ni) % 4:
+                        continue
+                    init = {"cls": cls, "how": how, "items": items}
+                    watch = ("all", "keys", "blind")[(hi + ni + pi) % 3]
+                    for op in sorts:
+                        yield {"kind": "deb822", "init": init, "watch": watch, "ops": [op]}
+            # two sorts in a row; a sort between two other operations
+            for ni, names in enumerate(perms):
+                if not full and ni % 12 != pi + 1:
+                    continue
+                init = {"cls": "Deb822", "how": ("text", "dict", "iterpara", "mapping")[ni % 4],
+                        "items": [[k, str(i + 1)] for i, k in enumerate(names)]}
+                for a in sorts:
+                    for b in sorts:
+                        yield {"kind": "deb822", "init": init, "ops": [a, b]}
+                    for pre in SORT_PRE:
+                        for post in SORT_POST:
+                            yield {"kind": "deb822", "init": init, "ops": [pre, a, post, ["sort", "ident"]]}
+    return gen
+
+
 def enum_oset(maxlen):
     def gen():
         alpha = _oset_alphabet()
@@ -1322,7 +1438,10 @@ ranks = st.lists(st.integers(0, 4), min_size=1, max_size=7)
 sort_op = st.one_of(
     st.just(("sort",)),
     st.tuples(st.just("sort"), st.sampled_from(["default", "revlower", "len", "str"])),
-    st.tuples(st.just("sort"), st.just("ranks"), ranks))
+    st.tuples(st.just("sort"), st.just("ranks"), ranks),
+    # key functions that return, embed or compare the object they are given
+    st.tuples(st.just("sort"), st.sampled_from(["ident", "ident"] + [m for m in NAME_SORTS if m not in RANKED_SORTS])),
+    st.tuples(st.just("sort"), st.just("rank-name"), ranks))
 
 op_new = st.tuples(st.just("set"), k_lit, value)
 op_assign = st.tuples(st.just("set"), k_any, value)
@@ -1696,6 +1815,7 @@ def sources(tier):
                 Enum("llist-histories<=4", enum_llist(4), "LinkedList op alphabet, 1..4 steps"),
                 Enum("deb822-sparse-histories<=3", enum_sparse(3),
                      "delete/lookup op alphabet under the observation policies keys and blind, 14 start states"),
+                Enum("deb822-sort-keys", enum_sortkeys(False), "every sort key function x orders of 4 mixed-case names"),
                 Hyp("deb822-histories", gen_deb822(30), 700, shards=8),
                 Hyp("deb822-sparse-histories", gen_sparse(30), 700, shards=3),
                 Hyp("oset-histories", gen_oset(30), 700, shards=3),
@@ -1705,6 +1825,7 @@ def sources(tier):
             Enum("llist-histories<=5", enum_llist(5), "LinkedList op alphabet, 1..5 steps"),
             Enum("deb822-sparse-histories<=4", enum_sparse(4),
                  "delete/lookup op alphabet under the observation policies keys and blind, 14 start states"),
+            Enum("deb822-sort-keys", enum_sortkeys(True), "every sort key function x orders of 4 mixed-case names"),
             Hyp("deb822-histories", gen_deb822(40), 10000, shards=16),
             Hyp("deb822-sparse-histories", gen_sparse(40), 10000, shards=6),
             Hyp("oset-histories", gen_oset(40), 6000, shards=4),
